@@ -1113,6 +1113,8 @@ def _np_roll(a, shift, axis=None):
 @implements(np.triu)
 def _np_triu(m, k=0):
     p = plain(m)
+    if p.ndim == 1:      # NumPy broadcasts a vector against the (N,N) mask
+        p = np.broadcast_to(p, (p.shape[0], p.shape[0]))
     mask = np.triu(np.ones(p.shape[-2:], dtype=bool), k)
     out = p.copy()
     z = typed_const(0, m._sd) if m._sd is not None and m._sd != object else 0
@@ -1125,6 +1127,8 @@ def _np_triu(m, k=0):
 @implements(np.tril)
 def _np_tril(m, k=0):
     p = plain(m)
+    if p.ndim == 1:      # NumPy broadcasts a vector against the (N,N) mask
+        p = np.broadcast_to(p, (p.shape[0], p.shape[0]))
     mask = np.tril(np.ones(p.shape[-2:], dtype=bool), k)
     out = p.copy()
     z = typed_const(0, m._sd) if m._sd is not None and m._sd != object else 0
